@@ -24,7 +24,10 @@ def workbook_stream(sheets, names, xtis, formulas_by_sheet, lbls=None, split_ext
     the FORMULA record, e.g. SHRFMLA / ARRAY / a value cell]); an item (row, col, None, records)
     writes only the raw records (value cells outside the formula area)"""
     bof_g = rec(0x0809, struct.pack("<HHHHII", 0x0600, 0x0005, 0x0DBB, 0x07CC, 0, 0x0306))
-    cp = rec(0x0042, struct.pack("<H", 1200))
+    # any CodePage record or none: BIFF8 text (sheet names, defined names, PtgStr) never depends on it (audit-2 XLS-1)
+    import zlib
+    cpv = [1200, 1200, 1252, 1252, 932, 936, 1251, 65001, 10000, 437, 54321, None][zlib.crc32(repr((sheets, names, xtis)).encode("utf-8", "replace")) % 12]
+    cp = b"" if cpv is None else rec(0x0042, struct.pack("<H", cpv))
     supbook = rec(0x01AE, struct.pack("<HH", len(sheets), 0x0401))
     def ext(xs):
         return rec(0x0017, struct.pack("<H", len(xs)) + b"".join(struct.pack("<HHH", *x) for x in xs))
